@@ -28,6 +28,7 @@ plus a seeded random bin with longer lists (5..=9 pieces).
 import itertools
 import os
 import random
+import re
 
 from . import common
 
@@ -102,9 +103,25 @@ class Emit:
 
     def __init__(self):
         self.blocks = []
+        self.failed = {}      # block index -> "PANIC" | "COMPILE-ERROR" (found by a failed build)
+        self.ranges = []      # (first line, last line) of every block in the last program text
 
     def add(self, body):
-        self.blocks.append("{\n" + body + "\n}")
+        self.blocks.append(body)
+
+    def block_text(self, k):
+        """the case as a `{ ... }` statement; a case whose macro invocation rustc rejected
+        (const-evaluation panic = the macro panicked on this argument, or any other error) is
+        emitted WITHOUT the invocation and reports that outcome as its impl column, so that it
+        shows up as a concrete failing input instead of a crate that does not build"""
+        body = self.blocks[k]
+        if k in self.failed:
+            lines = [l for l in body.split("\n") if not l.startswith("const R:")]
+            body = "\n".join(lines)
+            lit = '"%s"' % self.failed[k]
+            assert "&hex(R.as_bytes())" in body or "&ints(&R)" in body
+            body = body.replace("&hex(R.as_bytes())", lit).replace("&ints(&R)", lit)
+        return "{\n" + body + "\n}"
 
     # ---- str_concat!
     def concat(self, kind, items, form):
@@ -236,13 +253,27 @@ class Emit:
                  'out.line("c20.slice_concat", &slices(S), &ints(&R), &ints(&stdv), "%s");' % tag)
 
     def program(self, per_fn=60):
-        parts = []
+        text = HEAD
+        self.ranges = []
         calls = []
-        for k in range(0, len(self.blocks), per_fn):
-            name = "part_%d" % (k // per_fn)
-            parts.append("#[inline(never)]\nfn %s(out: &mut Out) {\n%s\n}\n" % (name, "\n".join(self.blocks[k:k + per_fn])))
+        for k0 in range(0, len(self.blocks), per_fn):
+            name = "part_%d" % (k0 // per_fn)
+            text += "#[inline(never)]\nfn %s(out: &mut Out) {\n" % name
+            for k in range(k0, min(k0 + per_fn, len(self.blocks))):
+                b = self.block_text(k)
+                first = text.count("\n") + 1
+                text += b + "\n"
+                self.ranges.append((first, text.count("\n")))
+            text += "}\n"
             calls.append("    %s(&mut out);" % name)
-        return HEAD + "\n".join(parts) + "\nfn main() {\n    let mut out = Out::new();\n" + "\n".join(calls) + "\n    out.flush();\n}\n"
+        text += "fn main() {\n    let mut out = Out::new();\n" + "\n".join(calls) + "\n    out.flush();\n}\n"
+        return text
+
+    def block_at(self, line):
+        for k, (a, b) in enumerate(self.ranges):
+            if a <= line <= b:
+                return k
+        return None
 
 
 FORMS = ["lit", "cs", "ca", "fn"]
@@ -370,21 +401,60 @@ def random_cases(seed, thorough):
     return e
 
 
+def cargo_build(crate, release, timeout=2400):
+    """like common.build, but keeps going and returns the complete stderr"""
+    import kv
+    d = os.path.join(common.GEN, crate)
+    with kv.Lock("cargo.lock"):
+        cmd = ["cargo", "build", "--offline", "-q", "--bins", "--keep-going"] + (["--release"] if release else [])
+        p = kv.run(cmd, cwd=d, timeout=timeout)
+    return p.returncode == 0, p.stderr
+
+
+def mark_failures(emits, stderr):
+    """map every rustc error to the case block it points into; returns (#newly marked, #unmapped)"""
+    new = 0
+    unmapped = 0
+    for chunk in re.split(r"\n\s*\n", stderr):
+        chunk = chunk.strip()
+        if not chunk.startswith("error") or chunk.startswith("error: could not compile") or chunk.startswith("error: aborting"):
+            continue
+        m = re.search(r"src/bin/(\w+)\.rs:(\d+):\d+", chunk)
+        k = None
+        if m and m.group(1) in emits:
+            k = emits[m.group(1)].block_at(int(m.group(2)))
+        if k is None:
+            unmapped += 1
+            continue
+        e = emits[m.group(1)]
+        if k not in e.failed:
+            e.failed[k] = "PANIC" if ("E0080" in chunk or "evaluation panicked" in chunk) else "COMPILE-ERROR"
+            new += 1
+    return new, unmapped
+
+
 def produce(tier, seed, release, out_path):
     thorough = tier == "thorough"
     t = "t" if thorough else "q"
     crate = CRATE + "_" + t          # one crate per tier: switching tiers does not rebuild
-    bins = {}
+    emits = {}
     for k, e in enumerate(fixed_cases(thorough)):
-        bins["c20_macros_%s%d" % (t, k)] = e.program()
+        emits["c20_macros_%s%d" % (t, k)] = e
     # the seeded cases live in their own small bin: a new seed rebuilds only that
-    bins["c20_macros_%s_rand" % t] = random_cases(int(seed), thorough).program()
-    common.make_crate(crate, bins)
-    err = common.build(crate, release)
-    if err:
-        return err
+    emits["c20_macros_%s_rand" % t] = random_cases(int(seed), thorough)
+    for attempt in range(6):
+        common.make_crate(crate, {b: e.program() for b, e in emits.items()})
+        ok, stderr = cargo_build(crate, release)
+        if ok:
+            break
+        new, unmapped = mark_failures(emits, stderr)
+        if new == 0:
+            errs = re.findall(r"^error[^\n]*(?:\n\s+-->[^\n]*)?", stderr, re.M)
+            return "generated crate %s does not build against /repo: %s" % (crate, " | ".join(errs[:6]) or stderr[-1500:])
+    else:
+        return "generated crate %s still does not build after removing the rejected invocations" % crate
     open(out_path, "w").close()
-    for b in bins:
+    for b in emits:
         err = common.run_bin(crate, b, [], out_path, release)
         if err:
             return err
